@@ -112,6 +112,12 @@ func evalBatchOps(c *RunCtx, prop string, names []string) *Batch {
 		if r.Intn(4) == 0 {
 			t = gop("c_id", t)
 		}
+		if r.Intn(5) == 0 { // logic operators nested directly in one another: each must stay its own fold
+			t = logicNest(r, 2+r.Intn(2))
+			if t.Kind != "op" {
+				t = gop("c_id", t)
+			}
+		}
 		mask := []int{15, 0, r.Intn(16)}[r.Intn(3)]
 		rc := &RunCfg{Opts: optSubset(mask, r.Bool())}
 		addEval(c, b, &EvalSpec{Tree: t, RC: rc, Bind: opsEvalBind(r), DoEval: true, Tags: []string{fmt.Sprintf("subset:%d", mask), "eval-level"}})
